@@ -325,7 +325,15 @@ fn run_compaction_scenario(run: &Run, idx: u64, seed: u64, sc: &Scratch) -> Outc
 	}
 	// how many blocks above the fork point get reorganised away; depth 1 (compaction runs at the
 	// very block that spent the pairs) is the sharpest case and always part of a run
-	let depth = if (idx / 2) % 2 == 0 { 1 } else { 1 + prng.usize_below(3) };
+	// ... and depth = horizon (20): the spender is then the first block above the compaction horizon and the
+	// reorg goes back exactly to the horizon block (the deepest reorg that stays inside the horizon)
+	let horizon = grin_core::global::cut_through_horizon() as usize;
+	let depth = match (idx / 2) % 4 {
+		0 => 1,
+		1 => horizon,
+		2 => 1 + prng.usize_below(3),
+		_ => *prng.pick(&[1usize, 2, horizon - 1, horizon]),
+	};
 	// sibling pairs among old unspent outputs with known openings
 	let pairs: Vec<(Coin, Coin)> = {
 		let st = h.state(&tip);
